@@ -20,7 +20,14 @@ import (
 
 type ssaFunction = ssa.Function
 
-const repoDir = "/repo"
+// repoDir is /repo; GOSYM_REPO redirects the engine to a scratch worktree (used only to try
+// seeded changes without touching /repo; registered commands never set it)
+var repoDir = func() string {
+	if d := os.Getenv("GOSYM_REPO"); d != "" {
+		return d
+	}
+	return "/repo"
+}()
 
 var verifDir = func() string {
 	if d := os.Getenv("VERIF_DIR"); d != "" {
